@@ -222,4 +222,25 @@ def branchesDistinct (t : T) : Bool :=
 
 def allLens (t : T) : Bool := t.edges.all fun e => e.len ≥ 0
 
+/-! ## The derived indexes (tip index, branch bitsets) after an operation -/
+
+/-- the number a tip must bear in the index: its rank among the tip names (names unique) -/
+def tipRank (names : List String) (x : String) : Nat := (names.filter (· < x)).length
+
+/-- same elements, as many -/
+def sameBits (a b : List Nat) : Bool := a.length == b.length && a.all b.contains && b.all a.contains
+
+/-- What must hold of the indexes read on a tree `u` (model-free): the index counts exactly the tips of
+    `u`; every tip is numbered by its rank; no name that is not a tip is still answered; every branch
+    carries a bitset, as long as the index, whose set bits are the numbers of the tips below the branch.
+    `ids` in `Tips()` order, `bits` in `Edges()` order (`none` = a nil bitset). -/
+def indexOK (u : T) (nb : Int) (ids : List Int) (bits : List (Option (Nat × List Nat))) (stale : List String) : Bool :=
+  let names := u.tipNames
+  nb == (names.length : Int) && ids == names.map (fun x => (tipRank names x : Int)) && stale.isEmpty &&
+  bits.length == u.splits.length &&
+  (List.zip u.splits bits).all fun p =>
+    match p.2 with
+    | none => false
+    | some (len, set) => len == names.length && sameBits set (p.1.below.map (tipRank names))
+
 end Gotree.C05
